@@ -282,6 +282,9 @@ class FnEmit:
             c = {'ult': '<', 'ule': '<=', 'ugt': '>', 'uge': '>=', 'slt': '<', 'sle': '<=', 'sgt': '>', 'sge': '>='}[pred]
             return '((u1)(%s %s %s))' % (a, c, b)
         if pred in ('eq', 'ne'):
+            if rt.kind == 'int' and rt.bits == 64 and (b == '((uint64_t)0ULL)' or a == '((uint64_t)0ULL)'):
+                x = a if b == '((uint64_t)0ULL)' else b
+                return '((u1)(%sIR2C_IS_ZERO64(%s)))' % ('' if pred == 'eq' else '!', x)
             return '((u1)(%s %s %s))' % (a, '==' if pred == 'eq' else '!=', b)
         c = {'lt': '<', 'le': '<=', 'gt': '>', 'ge': '>='}[pred[1:]]
         if pred[0] == 'u':
@@ -681,9 +684,12 @@ typedef uint8_t *ptr;
 static u1 ir2c_exc_pending; static ptr ir2c_exc_obj; static uint32_t ir2c_exc_type; static uint64_t ir2c_deferred_count;
 #ifdef __CPROVER__
 #define IR2C_PTROFF(p) ((uint64_t)__CPROVER_POINTER_OFFSET(p))
+/* x == 0 for a 64-bit word that may hold a tagged pointer: the offset test folds in symex when a tag is present */
+#define IR2C_IS_ZERO64(x) (__CPROVER_POINTER_OFFSET((ptr)(uintptr_t)(x)) == 0 && (x) == 0)
 #define IR2C_TAGOF(x) ((uint64_t)__CPROVER_POINTER_OFFSET((ptr)(uintptr_t)(x)) & 7)
 #else
 #define IR2C_PTROFF(p) ((uint64_t)(uintptr_t)(p))
+#define IR2C_IS_ZERO64(x) ((x) == 0)
 #define IR2C_TAGOF(x) ((uint64_t)(x) & 7)
 #endif
 #ifdef IR2C_NONDET_INIT
@@ -843,7 +849,7 @@ STUB_REGISTRY = {
  'lib_abort': (r'^unodb::detail::(cannot_happen|crash|msg_stacktrace_abort|assert_failure)\(', lambda a: '{ __CPROVER_assert(0, "unodb cannot_happen/crash/assert_failure reached"); __CPROVER_assume(0); }'),
  'tag_ptr': (r'unodb::detail::basic_node_ptr<.*>::tag_ptr\(', lambda a: '{ __CPROVER_assert((IR2C_PTROFF(%s) & 7) == 0, "node pointer 8-aligned before tagging"); return (uint64_t)(uintptr_t)(%s + %s); }' % (a[0], a[0], a[1])),
  'node_type': (r'unodb::detail::basic_node_ptr<.*>::type\(\) const', lambda a: '{ uint64_t x = *(uint64_t*)%s; return (uint8_t)IR2C_TAGOF(x); }' % a[0]),
- 'node_ptr': (r'auto\* unodb::detail::basic_node_ptr<.*>::ptr<.*>\(\) const', lambda a: '{ uint64_t x = *(uint64_t*)%s; return (ptr)(uintptr_t)x - IR2C_TAGOF(x); }' % a[0]),
+ 'node_ptr': (r'auto\* unodb::detail::basic_node_ptr<.*>::ptr<.*>\(\) const', lambda a: '{ uint64_t x = *(uint64_t*)%s; return (ptr)(uintptr_t)(x - IR2C_TAGOF(x)); }' % a[0]),
 }
 DEFAULT_STUBS = ['tag_ptr', 'node_type', 'node_ptr', 'lib_abort']
 def demangle(names):
